@@ -876,9 +876,16 @@ fn translate_windowed(
         });
     }
 
+    // A star is not an expression: `PARTITION BY *` is accepted by no dialect (GROUP BY has the
+    // `stars_in_group` switch, PARTITION BY has none), so partitioning by all columns of a
+    // relation whose columns are not known is reported instead of emitted.
+    let allow_stars = std::mem::replace(&mut ctx.query.allow_stars, false);
+    let partition_by = try_into_exprs(window.partition, ctx, span);
+    ctx.query.allow_stars = allow_stars;
+
     let window = WindowSpec {
         window_name: None,
-        partition_by: try_into_exprs(window.partition, ctx, span)?,
+        partition_by: partition_by?,
         order_by,
         window_frame: if supports_frame && window.frame != default_frame {
             Some(try_into_window_frame(window.frame)?)
